@@ -10,7 +10,7 @@ from vlib import Case
 PROP = "C12"
 # development aid: VERIF_EBP_GUARDED=1 compares against the model of the readers WITH notes/findings/C05-ebp.patch
 # (use together with VERIF_REPO=<a tree that has the patch>)
-GUARDED = os.environ.get("VERIF_EBP_GUARDED", "") not in ("", "0")
+GUARDED = os.environ.get("VERIF_EBP_GUARDED", "1") not in ("", "0")   # /repo HEAD has the reader guards (commit 0e5df3a): strict comparison with the guarded model
 READ = "ebp.readg" if GUARDED else "ebp.read"
 BUILD = "ebp.buildg" if GUARDED else "ebp.build"
 PROOF_FILES = ["Properties/C12.v", "Properties/C05_ebp.v"]
